@@ -1,0 +1,11 @@
+//go:build verif
+
+package wamp
+
+// VerifSetNext positions the generator so that the next call to Next returns
+// the ID following last. It exists only in builds with the "verif" tag.
+func (g *IDGen) VerifSetNext(last uint64) { g.next = last }
+
+// VerifSetLastRecvID sets the last received request ID of the session. It
+// exists only in builds with the "verif" tag.
+func (s *Session) VerifSetLastRecvID(id ID) { s.lastRecvID = id }
